@@ -104,8 +104,10 @@ func (x *Exec) inlineCall(st *State, in *ssa.Call, f *ssa.Function, args []Val) 
 		return false // every path through the callee ended (panic): nothing to continue
 	}
 	merged := collected
-	if c := x.P.Specs.Contracts[qualName(f)]; c == nil || !c.NoMerge {
-		merged = x.mergeGroups(collected, in)
+	if x.noMergeTop && len(st.frames) == 0 {
+		// relational runs: keep the paths through the top-level helpers apart
+	} else if c := x.P.Specs.Contracts[qualName(f)]; c == nil || !c.NoMerge {
+		merged = x.mergeGroups(collected, in, len(st.dec))
 	}
 	// continue the caller once per group; the last group continues in place
 	for _, g := range merged[:len(merged)-1] {
@@ -776,9 +778,11 @@ func (x *Exec) doAppend(st *State, in *ssa.Call, args []Val) bool {
 		// the in-place outcome is kept aside and merged with the fresh-array
 		// outcome right after this instruction
 		x.setVal(s1, in, Val{T: r1, Ty: in.Type()})
+		s1.dec = append(s1.dec, fits)
 		inPlace = s1.clone()
 		*st = *s2
 		st.assume(Not(fits))
+		st.dec = append(st.dec, Not(fits))
 	}
 	a := x.freshAlloc(st)
 	cp := x.fresh("cap", SInt)
@@ -811,7 +815,7 @@ func (x *Exec) doAppend(st *State, in *ssa.Call, args []Val) bool {
 	x.setVal(st, in, Val{T: r, Ty: in.Type()})
 	if inPlace != nil {
 		fresh := st.clone()
-		*st = *x.mergeStates([]*State{inPlace, fresh}, in)
+		*st = *x.mergeStates([]*State{inPlace, fresh}, in, len(fresh.dec)-1)
 	}
 	return true
 }
@@ -916,13 +920,16 @@ func (x *Exec) nativeModel(st *State, in *ssa.Call, name string, args []Val) boo
 			st.assume(Eq(SlLen(r), Int(1)))
 			st.assume(Eq(readArr(row, SlOff(r), SStr), v))
 		} else {
+			// the value already stored under the key is a Go slice value
+			st.assume(x.wf(old, types.NewSlice(types.Typ[types.String])))
 			oldLen := Ite(present, SlLen(old), Int(0))
 			st.assume(Eq(SlLen(r), Add(oldLen, Int(1))))
 			st.assume(Eq(Select(row, Add(SlOff(r), oldLen), SStr), v))
 			oldrow := readArr(eh, SlArr(old), "(Array Int Str)")
+			// elements before the appended one are those of the old value (absolute index on the new array)
 			k2 := "k!q"
-			st.assume(Term{fmt.Sprintf("(forall ((%s Int)) (! (=> (and (<= 0 %s) (< %s %s)) (= (select %s (+ %s %s)) (select %s (+ %s %s)))) :pattern ((select %s (+ %s %s)))))",
-				k2, k2, k2, oldLen.S, row.S, SlOff(r).S, k2, oldrow.S, SlOff(old).S, k2, row.S, SlOff(r).S, k2), SBool})
+			st.assume(Term{fmt.Sprintf("(forall ((%s Int)) (! (=> (and (<= %s %s) (< %s (+ %s %s))) (= (select %s %s) (select %s (+ (- %s %s) %s)))) :pattern ((select %s %s))))",
+				k2, SlOff(r).S, k2, k2, SlOff(r).S, oldLen.S, row.S, k2, oldrow.S, k2, SlOff(r).S, SlOff(old).S, row.S, k2), SBool})
 		}
 		st.assume(Ne(SlArr(r), Int(0)))
 		mp := x.heap(st, "MP!", SBool)
